@@ -5,6 +5,7 @@ mod mk;
 mod model;
 mod props;
 mod tape;
+mod wire;
 
 use driver::Tier;
 
